@@ -454,6 +454,8 @@ def check_main(prop, args):
             print("replay: sig=%s detail=%s" % (res.get("sig"), json.dumps(res.get("detail"), default=repr)[:1500]))
             if res.get("digest"):
                 print("replay: digest=%s" % res["digest"])
+            for e in res.get("events_tail") or []:
+                print("replay: event: %s" % e)
             if k and not args.strict:
                 print("KNOWN-FINDING: property=%s %s" % (prop.id, k["description"]))
                 return EXIT_OK
